@@ -316,6 +316,10 @@ const char* pv_seed_mismatch(const polyseed_data* s, const pv_mseed* m, unsigned
 polyseed_data* pv_seed_from_model(const pv_mseed* m);
 const char* pv_status_name(int st);
 
+/* arms the allocator for the next library call: usually the next request is refused, sometimes only the second or third one (a call
+ * that makes several requests must cope with any of them failing).  For calls whose expected result does not depend on the refusal. */
+void pv_arm_some_request(void);
+
 /* the same clause under contention: `nthreads` threads, each with its own thread-local world (yields inside the dependency
  * callbacks widen the windows), run `iters` iterations of `fn` on private seeds at the same time.  fn returns false and
  * describes the first problem in err when what it observed differs from the model; it must release what it allocates. */
